@@ -60,6 +60,19 @@ def build_speedups():
     return so
 
 
+class _SpeedupsFinder(object):
+    """meta path finder: `genshi._speedups` is the shared object built from the tree under test"""
+
+    def __init__(self, so):
+        self.so = so
+
+    def find_spec(self, fullname, path=None, target=None):
+        if fullname != 'genshi._speedups':
+            return None
+        loader = importlib.machinery.ExtensionFileLoader(fullname, self.so)
+        return importlib.util.spec_from_file_location(fullname, self.so, loader=loader)
+
+
 def stage(impl='c'):
     """make `import genshi` resolve to REPO with the chosen Markup implementation.
     Must be called before genshi is imported in this process."""
@@ -67,17 +80,15 @@ def stage(impl='c'):
     if 'genshi' in sys.modules:
         raise StageError('genshi already imported')
     sys.path.insert(0, REPO)
+    so = None
     if impl == 'c':
+        # The extension's init function imports genshi itself (genshi.util), which imports genshi.core,
+        # which imports genshi._speedups: creating the module by hand before `import genshi` makes that
+        # inner import miss sys.modules and fall through to whatever finder knows a genshi._speedups
+        # (the editable install of /repo: its stale .so) -- genshi.core.Markup was then NOT built from the
+        # current _speedups.c.  Resolve the name through a finder instead and import genshi normally.
         so = build_speedups()
-        loader = importlib.machinery.ExtensionFileLoader('genshi._speedups', so)
-        spec = importlib.util.spec_from_file_location('genshi._speedups', so, loader=loader)
-        mod = importlib.util.module_from_spec(spec)
-        sys.modules['genshi._speedups'] = mod
-        try:
-            loader.exec_module(mod)
-        except Exception:
-            del sys.modules['genshi._speedups']
-            raise
+        sys.meta_path.insert(0, _SpeedupsFinder(so))
     elif impl == 'py':
         sys.modules['genshi._speedups'] = None   # `from genshi._speedups import Markup` -> ImportError
     else:
@@ -89,6 +100,12 @@ def stage(impl='c'):
     is_c = genshi.core.Markup.__module__ == 'genshi._speedups'
     if (impl == 'c') != is_c:
         raise StageError('wanted Markup impl %s, got module %s' % (impl, genshi.core.Markup.__module__))
+    if impl == 'c':
+        ext = sys.modules.get('genshi._speedups')
+        if ext is None or os.path.abspath(getattr(ext, '__file__', '')) != os.path.abspath(so) \
+                or genshi.core.Markup is not ext.Markup:
+            raise StageError('genshi.core.Markup does not come from the extension built from %s/genshi/_speedups.c (loaded: %s)'
+                             % (REPO, getattr(ext, '__file__', None)))
     return genshi
 
 
